@@ -25,7 +25,8 @@ PROP = {
                   "is built from generated element words and pushed through every carrier its feature impls provide. serde is driven through an exact in-memory token carrier (scalars keep their "
                   "bits, so NaN payloads and -0 are decided) and through serde_json text; the expected stream / text / byte image / mint entries are computed from the input words, not from glam. "
                   "Rejection is checked for every length 0..N-1 in the token carrier and 0..N+2 (except N) in JSON. The feature-enabled SSE2 and scalar-math builds run in the same process and must "
-                  "agree on token streams, JSON text and deserialised values for the same words (nightly: core-simd against both). Exploration over element values; exhaustive over types, carriers, "
+                  "agree on token streams, JSON text and deserialised values for the same words (nightly: core-simd against both). A feature-enabled SSE2 build with glam-assert "
+                  "repeats every carrier at half the volume: no feature impl may acquire a precondition on the values it carries. Exploration over element values; exhaustive over types, carriers, "
                   "mint forms, lengths, bool values and EulerRot variants.",
     "level_note": "Trusted: the array movers from_array/to_array/from_cols_array/to_cols_array (each case verifies they reproduce the input bits; C17 checks them), rustc moving f32/f64 bit "
                   "patterns unchanged on x86_64, serde / serde_json / bytemuck / rkyv / mint themselves, the harness. BVec3A/BVec4A have no serde impl in the scalar-math build (recorded in the "
